@@ -9,6 +9,8 @@ import DDProofs.MddProofs
 import DDProofs.MddConv
 import DDProofs.MddGcReach
 import DDProofs.MddFuel
+import DDProofs.MddConvFull
+import DDProps.C07
 import DDProofs.Inv
 namespace DD
 
@@ -137,60 +139,83 @@ theorem C15_gc_spec (m : MddMgr) (ext : Nat → Nat) (h : MInv m) (hx : MRefExac
 
 /-! ### `bdd_to_mdd` -/
 
-/-- BDD denotation by variable NAME (levels change when `bdd_to_mdd` reorders) -/
-def denByName (t : Tbl) (u : Int) (β : String → Bool) : Bool :=
-  den t u (fun lvl => match t.l2v[lvl]? with
-    | some v => β v
-    | none => false)
-
-/-- the bit assignment that encodes an integer assignment: bit `k` of the value of the integer
-variable that lists the bit at position `k` (first listed bit least significant) -/
-def bitsOfInts (dvars : List MVar) (α : MAsg) : String → Bool := fun bit =>
-  match dvars.find? (fun d => d.bits.contains bit) with
-  | none => false
-  | some d => (α d.level >>> d.bits.idxOf bit) % 2 == 1
-
-/-- number of edges of the BDD into node `u` -/
-def bddIndeg (t : Tbl) (u : Nat) : Nat :=
-  t.succ.foldl (fun acc _ n =>
-    acc + (if n.lo.natAbs = u then 1 else 0) + (if n.hi.natAbs = u then 1 else 0)) 0
-
-/-- `dvars` is a proper description: distinct names, levels `0..n-1`, non-empty bit lists,
-`len = 2 ** len(bitnames)`, and the bit lists partition the declared BDD variables -/
-structure DvarsOK (mb : Mgr) (dvars : List MVar) : Prop where
-  names : (dvars.map (·.name)).Nodup
-  levels : (dvars.map (·.level)).Perm (List.range dvars.length)
-  len : ∀ d ∈ dvars, d.bits ≠ [] ∧ d.len = 2 ^ d.bits.length
-  bits : (dvars.flatMap (·.bits)).Perm mb.tbl.vars.keys
-
-/-- the user holds a reference to node `u`: its count exceeds what the diagram accounts for
-(in-degree, plus the permanent reference of the terminal) -/
-def BddHeld (mb : Mgr) (u : Nat) : Prop :=
-  ∃ c, mb.ref[u]? = some c ∧ bddIndeg mb.tbl u + (if u = 1 then 1 else 0) < c
-
-/-- C15, conversion part, at full strength: for a BDD manager satisfying its invariant with
-sound counts and a proper `dvars`, whenever `bdd_to_mdd` returns `(mdd, umap)`
-(for any recorded iteration orders):
+/-- C15, conversion part, at full strength: for a BDD manager that satisfies the reordering
+invariant `ReorderInv ext mb` (manager invariant, name maps inverse bijections, exact counts
+w.r.t. the ledger `ext` of the references the user holds, every root held) and a proper `dvars`
+(`DvarsOK`: integer variables at the levels `0..n-1`, bit lists partitioning the declared BDD
+variables), whenever `bdd_to_mdd` returns `(mdd, umap)` — for any recorded iteration orders of
+swaps and of `bdd.levels()` — `B2MOK` holds:
 * the MDD manager satisfies its invariant and has the variables `dvars`;
-* every `umap` entry `u ↦ r` is an MDD reference whose value on each valid integer assignment
-  equals the BDD's value of `u` on the encoded bit assignment (so `flip(umap[|u|], u)` is right
-  for complemented BDD references too);
-* every BDD node the user holds is in `umap`;
-* the BDD manager keeps its invariant, and every held reference is still a node denoting the
-  same function of the variable names. -/
+* for every `umap` entry `u ↦ r` and every reference `s` to node `u` (complemented or not),
+  `flip(r, s)` takes on every valid integer assignment `α` the value of `s` on the encoded bits
+  (`bitsOfInts dvars α`: bit `k` of `α[var]` for the `k`-th listed bit — first listed bit least
+  significant);
+* every BDD node the user holds, and the terminal, is a key of `umap`;
+* the BDD manager keeps its invariant, the bits are in zones, and every held reference still is a
+  node denoting the same function of the variable names. -/
 def bddToMdd_statement : Prop :=
-  ∀ (mb : Mgr) (dvars : List MVar) (lev : Option (List Nat)) (out : B2MOut) (mb' : Mgr),
-    Inv mb → (∀ u c, mb.ref[u]? = some c → bddIndeg mb.tbl u ≤ c) → DvarsOK mb dvars →
-    bddToMdd dvars lev mb = (.ok out, mb') →
-    MInv out.mdd ∧ out.mdd.tbl.vars = dvars ∧ Inv mb' ∧
-    (∀ (u : Nat) (r : Int), out.umap.lookup u = some r →
-      mb'.tbl.Mem (u : Int) ∧ out.mdd.tbl.Mem r ∧
-      ∀ (s : Int), s.natAbs = u → ∀ α, MValid out.mdd.tbl α →
-        denM out.mdd.tbl (flip r s) α = denByName mb'.tbl s (bitsOfInts dvars α)) ∧
-    (∀ u, mb'.tbl.Mem ((u : Nat) : Int) → BddHeld mb' u → (out.umap.lookup u).isSome = true) ∧
-    (∀ u, mb.tbl.Mem ((u : Nat) : Int) → BddHeld mb u →
-      mb'.tbl.Mem ((u : Nat) : Int) ∧ BddHeld mb' u ∧
-      ∀ (s : Int), s.natAbs = u → ∀ β, denByName mb'.tbl s β = denByName mb.tbl s β)
+  ∀ (ext : Nat → Nat) (mb : Mgr) (dvars : List MVar) (lev : Option (List Nat)) (out : B2MOut) (mb' : Mgr),
+    ReorderInv ext mb → DvarsOK mb.tbl dvars →
+    bddToMdd dvars lev mb = (.ok out, mb') → B2MOK ext dvars mb out mb'
+
+/-- C15, conversion part, what is proved: the full statement for managers in which dynamic
+reordering is not enabled (`_last_len is None`, the default; the specification of `cofactor`,
+C04, is proved under that hypothesis).  Built from `collectGarbage_spec` (C06),
+`sortToOrder_exact` (C07: `reorder(bdd, order)` reaches exactly the requested order and keeps
+every held reference's function of the names), `cofactor_spec` (C04), canonicity ("a node depends
+on its own level": the cofactor w.r.t. all bits of a zone lies in a later zone), and the MDD side
+(`find_or_add` specification). -/
+theorem C15_bddToMdd_partial_off (ext : Nat → Nat) (mb : Mgr) (h : ReorderInv ext mb)
+    (hoff : mb.lastLen = none) (dvars : List MVar) (hd : DvarsOK mb.tbl dvars)
+    (lev : Option (List Nat)) (out : B2MOut) (mb' : Mgr)
+    (hr : bddToMdd dvars lev mb = (.ok out, mb')) : B2MOK ext dvars mb out mb' :=
+  bddToMdd_spec ext mb h hoff dvars hd lev out mb' hr
+
+/-- the same, spelled out for one held reference `s` (either sign): it has an image, and
+`flip(umap[|s|], s)` evaluates on every valid integer assignment to what the BDD reference — as
+it was BEFORE the call, by variable names — evaluates to on the encoded bits -/
+theorem C15_bddToMdd_held (ext : Nat → Nat) (mb : Mgr) (h : ReorderInv ext mb)
+    (hoff : mb.lastLen = none) (dvars : List MVar) (hd : DvarsOK mb.tbl dvars)
+    (lev : Option (List Nat)) (out : B2MOut) (mb' : Mgr)
+    (hr : bddToMdd dvars lev mb = (.ok out, mb')) (s : Int) (hs : 0 < ext s.natAbs) :
+    ∃ r, out.umap.lookup s.natAbs = some r ∧ out.mdd.tbl.Mem r ∧
+      ∀ α, MValid out.mdd.tbl α →
+        denM out.mdd.tbl (flip r s) α = denN mb.tbl s (bitsOfInts dvars α) := by
+  have B := bddToMdd_spec ext mb h hoff dvars hd lev out mb' hr
+  obtain ⟨r, hr'⟩ := Option.isSome_iff_exists.mp (B.mapped.2 s.natAbs hs)
+  obtain ⟨hmu, hmr, hden⟩ := B.umap s.natAbs r hr'
+  refine ⟨r, hr', hmr, ?_⟩
+  intro α hα
+  rw [hden s rfl α hα]
+  -- the BDD function is intact
+  obtain ⟨hm', hsame⟩ := B.held s.natAbs hs
+  have hmem0 : mb.tbl.Mem ((s.natAbs : Nat) : Int) := h.held_mem hs
+  have hW := h.inv.wf.toWF
+  have hW' := B.bdd.wf.toWF
+  by_cases hneg : s < 0
+  · have hsu : s = -((s.natAbs : Nat) : Int) := by omega
+    rw [hsu]
+    unfold denN
+    rw [den_neg mb'.tbl hW' _ _ hm', den_neg mb.tbl hW _ _ hmem0]
+    have := hsame (bitsOfInts dvars α)
+    unfold denN at this
+    rw [this]
+  · have hsu : s = ((s.natAbs : Nat) : Int) := by omega
+    rw [hsu]
+    exact hsame _
+
+/-- the hypotheses of the conversion theorems are satisfiable by a non-trivial manager: the
+example manager of C06/C07 (variables `a`, `b`; nodes 2 = `a`, 3 = `b`, 4 = `a ∧ b` held) with
+one integer variable `x` over the bits `b` (least significant) and `a` — the requested zone
+order differs from the current variable order, so the call reorders.  (The run itself cannot be
+evaluated in the kernel — the memo of `cofactorF` is a `HashMap` —; successful runs are what the
+correspondence check executes.) -/
+example : ReorderInv exExt exM ∧ exM.lastLen = none ∧ 0 < exExt 4 ∧
+    DvarsOK exM.tbl [⟨"x", 0, 4, ["b", "a"]⟩] := by
+  refine ⟨exM_reorderInv, by decide, by decide, ⟨List.Perm.refl _, ?_⟩⟩
+  have hk : exM.tbl.vars.keys = ["a", "b"] := by decide
+  rw [hk]
+  exact List.Perm.swap _ _ _
 
 /-- C15, conversion part, the half that is proved: the main loop of `bdd_to_mdd`
 (`b2mLoop`: per kept BDD node, `cofactor` per integer value, edges mapped through `umap`,
